@@ -1,6 +1,7 @@
 /* kvh main loop: reads one op per line from stdin (or the file given as argv[1]),
    calls the real kalign code in-process, prints one result line per op. */
 #include "kvh.h"
+#include <unistd.h>
 
 int kv_parse_ints(const char *s, struct kv_ints *out)
 {
@@ -34,7 +35,7 @@ static int hv(int c){ if(c>='0'&&c<='9') return c-'0'; if(c>='a'&&c<='f') return
 int kv_unhex(const char *s, unsigned char **out, int *n)
 {
         size_t l = strlen(s);
-        if(strcmp(s, "-") == 0){ *out = malloc(1); *n = 0; return 0; }
+        if(strcmp(s, "-") == 0){ *out = calloc(1, 1); *n = 0; return 0; }
         if(l % 2) return 1;
         unsigned char *b = malloc(l/2 + 1);
         for(size_t i = 0; i < l/2; i++){
@@ -58,23 +59,28 @@ int main(int argc, char **argv)
 {
         FILE *in = stdin;
         if(argc > 1){ in = fopen(argv[1], "r"); if(!in){ perror(argv[1]); return 2; } }
+        /* the library logs to stdout: keep a private stream for result lines and send fd 1 to stderr */
+        fflush(stdout);
+        FILE *res = fdopen(dup(1), "w");
+        dup2(2, 1);
         char *line = NULL; size_t cap = 0; ssize_t nr;
         char **tok = malloc(sizeof(char*) * KV_MAXTOK);
         while((nr = getline(&line, &cap, in)) != -1){
                 while(nr > 0 && (line[nr-1] == '\n' || line[nr-1] == '\r')) line[--nr] = 0;
                 int nt = 0;
                 for(char *p = strtok(line, " "); p && nt < KV_MAXTOK; p = strtok(NULL, " ")) tok[nt++] = p;
-                if(nt == 0){ puts("bad-op"); continue; }
+                if(nt == 0){ fputs("bad-op\n", res); fflush(res); continue; }
                 kv_op_fn fn = NULL;
                 for(int t = 0; tables[t] && !fn; t++){
                         for(struct kv_op *o = tables[t]; o->name; o++){
                                 if(strcmp(o->name, tok[0]) == 0){ fn = o->fn; break; }
                         }
                 }
-                if(!fn){ puts("bad-op"); continue; }
-                if(fn(nt - 1, tok + 1, stdout) != 0){ fputs("bad-op", stdout); }
-                fputc('\n', stdout);
+                if(!fn){ fputs("bad-op\n", res); fflush(res); continue; }
                 fflush(stdout);
+                if(fn(nt - 1, tok + 1, res) != 0){ fputs("bad-op", res); }
+                fputc('\n', res);
+                fflush(res);
         }
         free(line); free(tok);
         if(in != stdin) fclose(in);
